@@ -6,7 +6,7 @@
 (* precondition (WellFormed), and has no naive node above 32 (C05).        *)
 (* One initial state per (variant, n).                                     *)
 (***************************************************************************)
-EXTENDS PlannerAvx, Ops, TLC
+EXTENDS PlanScratch, Ops, TLC
 
 CONSTANTS NMax, Extra, Variants
 
@@ -21,6 +21,12 @@ PlanOf(v, len) == CASE v = "scalar" -> ScalarPlan(len)
                     [] v = "avx32-noavx2" -> AvxPlan("f32", FALSE, len)
                     [] v = "avx64-noavx2" -> AvxPlan("f64", FALSE, len)
 
+\* SseRadix4::new_with_sse asserts base_len % (2 * COMPLEX_PER_VECTOR) = 0 (4 for f32, the stricter of the two element types)
+SseRadix4BaseOk(t) == \A i \in DOMAIN t : t[i].k = "Radix4" => NodeLen(t, t[i].ch[1]) % 4 = 0 /\ NodeLen(t, t[i].ch[1]) > 0
+
+\* BluesteinsAvx::new_with_avx asserts inner_fft_len % COMPLEX_PER_VECTOR = 0 (4 for f32, 2 for f64)
+AvxBluesteinInnerOk(t, w) == \A i \in DOMAIN t : t[i].k = "BluesteinsBase" => t[i].p[2] % w = 0 /\ NodeLen(t, t[i].ch[1]) = t[i].p[2]
+
 PlanOk ==
     LET t == PlanOf(variant, n) IN
     /\ ~HasPanic(t)
@@ -28,6 +34,10 @@ PlanOk ==
     /\ WellFormed(t)
     /\ TreeLen(t) = n
     /\ NoNaiveAbove32(t)
+    /\ variant = "sse" => SseRadix4BaseOk(t)
+    /\ PlanScratchOk(t, variant \in {"avx32", "avx64"})                              \* scratch plumbing composed over the whole plan (C03/C05/C08)
+    /\ variant \in {"avx32", "avx32-noavx2"} => AvxBluesteinInnerOk(t, 4)
+    /\ variant \in {"avx64", "avx64-noavx2"} => AvxBluesteinInnerOk(t, 2)
     /\ variant = "scalar" /\ n >= 2 /\ n <= 65536 => OpBoundOk(n, TreeOps(t))       \* C05 work bound on the portable planner's design
 \* the evaluation happens in a transition: worker threads have the large stack the deep recursions (trial division) need
 Next == verdict = "todo" /\ verdict' = (IF PlanOk THEN "ok" ELSE "BAD") /\ UNCHANGED <<n, variant>>
